@@ -41,6 +41,12 @@ def cases(rng, tier):
             for d in ("wb,plru,1,1,2,3", "wt,lru,1,0,1,2", "wt,plru,0,1,2,5"):
                 lines = rvgen.header(mode, True, d, "-", prog, regs, []) + ["sim.snap"] + ["sim.step", "sim.snap"] * 6 + ["sim.run 200", "sim.snap"]
                 yield Case("sim-five", lines, None, {"mode": mode, "hazard": True, "prog": prog, "regs": regs, "pokes": [], "d": d, "i": "-"})
+    for prog, regs in rvgen.reg_sweep_programs():          # every register number as the register of a dependency
+        lines = rvgen.header("five", True, "-", "-", prog, regs, []) + ["sim.snap"]
+        for _ in range(len(prog) + 16):
+            lines += ["sim.step", "sim.snap"]
+        lines += ["sim.run 200", "sim.snap"]
+        yield Case("sim-five", lines, None, {"mode": "five", "hazard": True, "prog": prog, "regs": regs, "pokes": [], "d": "-", "i": "-"})
     for prog, regs in rvgen.fault_schedule_programs():          # schedules around faults, drains and squashed instructions
         lines = rvgen.header("five", True, "-", "-", prog, regs, []) + ["sim.snap"]
         for _ in range(16):
@@ -123,6 +129,24 @@ def oracle(c):
             between.append((l, o))
     # (3) retire cycle of every instruction vs the documented schedule
     a = c02.run_mode(c, "five", True, limit=1500)
+    if a["fault"] is not None and c.suite != "straight":
+        # an instruction that raises never retires. If neither the documented schedule (interlocked reference) nor the real
+        # single-cycle run raises anywhere, the pipeline has let an instruction run ahead of the schedule (e.g. a consumer
+        # that was not held back in decode read a stale base register)
+        first = next((o for l, o in zip(c.lines, c.impl_out) if l == "sim.snap" and o.startswith("pc=")), None)
+        b = c02.run_mode(c, "single", True, limit=1500)
+        if first is not None and b["fault"] is None and b["done"]:
+            d0 = rvgen.parse_snap(first)
+            regs = {i: int(v) for i, v in enumerate(d0["regs"].split(","))}
+            ref = pipe_ref.PipeRef(rvref.parse_prog(rvref.prog_of_lines(c.lines)), regs, rvref.mem_of_snap(d0), hazard=True)
+            try:
+                while not ref.done() and ref.cycle < 3000:
+                    ref.step()
+            except rvref.Fault:
+                return fails
+            if ref.done():
+                fails.append(Failure("oracle", PROP, f"the five-stage run raises ({a['fault']}) where every instruction of the documented schedule retires ({len(ref.retired)} retirements, {ref.cycle} cycles) and the single-cycle run finishes", "schedule:retire-time"))
+        return fails
     if a["fault"] is not None or not a["done"]:
         return fails
     first = next(o for l, o in zip(c.lines, c.impl_out) if l == "sim.snap")
